@@ -108,7 +108,7 @@ pub fn run(run: &Run) {
          RFC 5892 App. A over my parse of UCD 6.3.0 (ccc, Joining_Type, Script) returning the SET of allowed answers: true iff the condition holds; \
          false, or undefined only if a neighbour the rule inspects lies outside the label; NotApplicable iff the code point is not the rule's own; \
          Undefined for positions outside. Non-trivial: the position holds the rule's own code point and the label has >= 2 characters; \
-         distinct = distinct (rule,label,position). Plus the deterministic long-input / call-order batteries of DESIGN.md 8.1 that apply to this property (alignment sweeps 0..72 and around 128..65536 bytes, runs and exact counts, sandwiches and multi-megabyte inputs, exhaustive pair sets, plane/byte aliases, hash-colliding pairs back to back, owned arguments with spare capacity); each battery is a finite list enumerated completely and appears as its own section in 'sections'.",
+         distinct = distinct (rule,label,position). Plus the deterministic long-input / call-order batteries of DESIGN.md 8.1 and 8.2 that apply to this property (extreme scale, mark neighbours, distinct runs with repeats, environment children, thread lifetime, concurrent distinct inputs; alignment sweeps 0..72 and around 128..65536 bytes, runs and exact counts, sandwiches and multi-megabyte inputs, exhaustive pair sets, plane/byte aliases, hash-colliding pairs back to back, owned arguments with spare capacity); each battery is a finite list enumerated completely and appears as its own section in 'sections'.",
     );
     run.assume("Joining_Type, Script and ccc from the pinned UCD 6.3.0 files; 'undefined' is accepted instead of 'false' only where the RFC condition is false and a neighbour lies outside the label");
 
